@@ -216,21 +216,23 @@ func (b *raftBackend) Del(keys [][]byte) (int64, error) {
 	if len(keys) == 0 {
 		return 0, nil
 	}
-	version, err := b.reserveTimestamp(1)
-	if err != nil {
-		return 0, err
-	}
-
-	resps, err := b.batchGetWithRetry(keys, version)
+	// Count what a client could still see: MGet applies the TTL metadata, so a
+	// key whose expiry has passed is not reported as removed, and a key named
+	// twice is counted (and deleted) once.
+	vals, err := b.MGet(keys)
 	if err != nil {
 		return 0, err
 	}
 
 	mutations := make([]*pb.Mutation, 0, len(keys)*2)
+	seen := make(map[string]struct{}, len(keys))
 	var removed int64
-	for _, key := range keys {
-		resp := resps[string(key)]
-		if resp != nil && !resp.GetNotFound() && resp.GetError() == nil {
+	for i, key := range keys {
+		if _, dup := seen[string(key)]; dup {
+			continue
+		}
+		seen[string(key)] = struct{}{}
+		if vals[i] != nil && vals[i].Found {
 			removed++
 		}
 		valueKey := append([]byte(nil), key...)
@@ -239,9 +241,6 @@ func (b *raftBackend) Del(keys [][]byte) (int64, error) {
 			&pb.Mutation{Op: pb.Mutation_Delete, Key: valueKey},
 			&pb.Mutation{Op: pb.Mutation_Delete, Key: metaKey},
 		)
-	}
-	if len(mutations) == 0 {
-		return removed, nil
 	}
 	if err := b.mutate(append([]byte(nil), keys[0]...), mutations...); err != nil {
 		return 0, err
@@ -337,7 +336,8 @@ func (b *raftBackend) IncrBy(key []byte, delta int64) (int64, error) {
 	}
 	var current int64
 	if val != nil && val.Found && len(val.Value) > 0 {
-		current, err = strconv.ParseInt(string(val.Value), 10, 64)
+		// Same reading as the embedded backend (all-white-space counts as 0).
+		current, err = strconvParseIntSafe(val.Value)
 		if err != nil {
 			return 0, errNotInteger
 		}
@@ -453,7 +453,7 @@ func (b *raftBackend) buildValueAtVersion(key []byte, valueResp, ttlResp *pb.Get
 		return &redisValue{Found: false}, nil
 	}
 	return &redisValue{
-		Value:     append([]byte(nil), valueResp.GetValue()...),
+		Value:     append([]byte{}, valueResp.GetValue()...),
 		ExpiresAt: expiresAt,
 		Found:     true,
 	}, nil
